@@ -33,8 +33,8 @@ on every non-root edge; Edge.invert only on edges whose tail is not the seed (th
 pointer - reseed_at does) and without update_bipartitions (an Edge has no access to the namespace);
 seed_node is assigned parentless nodes or (documented splice) a node of the tree itself; reinsert_nodes only directly
 after the reversible_remove_child whose record it gets (its documented precondition); shuffle_taxa only with distinct
-taxa on the shuffled nodes; the Node.edge / Edge.head_node setters get a brand-new Edge for a node of the tree (nothing
-is asked to be removed)."""
+taxa on the shuffled nodes.  Not driven: assigning a new Edge object to Node.edge / Edge.head_node (a raw attribute
+assignment, not one of the statement's operations; see the note in enumerate_ops)."""
 import random
 import warnings
 
@@ -79,7 +79,7 @@ ASSUMPTIONS = ["walker reads only _seed_node/_child_nodes/_parent_node/_edge/_he
                "documented-error allow-list per operation was built from docstrings and explicit raise statements",
                "the public iterators read only the raw child/parent/edge fields, so a traversal verdict is a function of the ordered shape "
                "(the battery is evaluated once per distinct shape of <= 20 nodes per process, on 30% of the larger new shapes and on a 1% sample of the other steps)"]
-CASE_TIMEOUT = 120
+CASE_TIMEOUT = 300      # wall-clock watchdog only (a heavy depth-3 part needs ~10 CPU-s; the machine may be loaded 10x)
 
 
 class Skip(Exception):
@@ -308,7 +308,7 @@ def enumerate_ops(t, rng, exhaustive, H=None):
     return out
 
 
-ALIAS_OPS = ("set_children", "reversible_remove_child", "set_edge_tail_node", "set_node_edge", "edge_invert", "delete_outdegree_one_nodes",
+ALIAS_OPS = ("set_children", "reversible_remove_child", "set_edge_tail_node", "edge_invert", "delete_outdegree_one_nodes",
              "encode_splits", "update_splits", "set_is_unrooted", "reinsert_nodes")
 OLD_MODES = ("reverse", "drop-first", "plus-new")
 
@@ -730,15 +730,6 @@ def apply_op(t, d, rng, H=None):
         if not nd._child_nodes:
             exp["allowed"] = (ValueError,)
         return exp, lambda: nd.edge.collapse(**kw)
-    if op == "set_node_edge":
-        e = dendropy.Edge(length=nd._edge.length)
-        if d.get("via") == "Edge.head_node":
-            def f():
-                e.head_node = nd
-        else:
-            def f():
-                nd.edge = e
-        return exp, f
     if op == "edge_invert":
         if nd._parent_node is None or nd._parent_node._parent_node is None:
             raise Skip()
